@@ -38,7 +38,8 @@ def block_set(ctx, kind):
 def _worker(arg):
     from skepticoin.coinstate import CoinState
     from skepticoin.datatypes import Block
-    kind, paths = arg
+    kind, paths = arg[:2]
+    shard = arg[2] if len(arg) > 2 else None       # (k, n, quick): byte positions i with i % n == k of a large block
     ledger.setup()
     uni = ledger.tx_universe(kind)
     st = collections.Counter()
@@ -138,13 +139,18 @@ def _worker(arg):
                     '/'.join(p), len(raw), desc, "an acceptable block with the SAME id and different content" if same
                     else "another acceptable block", second), kind, p, desc))
         ba = bytearray(raw)
-        for i in range(len(raw)):
+        positions = range(len(raw))
+        if shard is not None:
+            k_, n_, quick_ = shard
+            positions = [i for i in range(len(raw)) if i % n_ == k_ and
+                         (not quick_ or i < hdr_len + 420 or i >= len(raw) - 320)]
+        for i in positions:
             region = 'header' if i < hdr_len else 'txs'
             for bit in range(8):
                 ba[i] ^= (1 << bit)
                 offer(bytes(ba), 'flip bit %d of byte %d' % (bit, i), region)
                 ba[i] ^= (1 << bit)
-        for cut in range(0, len(raw)):
+        for cut in (positions if shard is not None else range(0, len(raw))):
             offer(raw[:cut], 'truncate to %d bytes' % cut, 'trunc')
     return st, bad, rules
 
@@ -161,6 +167,12 @@ def run(ctx):
             random.Random(ctx.seed).shuffle(paths)
         n = max(1, min(len(paths), ctx.ncpu * 2))
         jobs += [(kind, paths[i::n]) for i in range(n)]
+    # one block with 64 transactions (two-octet transaction count), its byte positions spread over the workers; the quick tier
+    # takes the header, the count, the first two transactions and the last one
+    BIG = ('f', 's', 'F', 'm')
+    if ledger.tx_universe('easy').get(BIG) is not None:
+        nblocks['easy'] += 1
+        jobs += [('easy', [BIG], (k, 16, ctx.quick)) for k in range(16)]
     res = ctx.pmap(_worker, jobs)
     st = collections.Counter()
     rules = collections.Counter()
@@ -187,5 +199,5 @@ def run(ctx):
 
 
 def replay(data, ctx):
-    st, bad, rules = _worker((data['uni'], [tuple(data['path'])]))
+    st, bad, rules = _worker((data['uni'], [tuple(data['path'])]) + (((0, 1, False),) if len(data['path']) == 4 and data['path'][-1] == 'm' else ()))
     return [(k, w) for k, w, _, _, _ in bad]
